@@ -421,6 +421,13 @@ thread_local! {
     static SLOT: std::cell::Cell<usize> = const { std::cell::Cell::new(usize::MAX) };
 }
 
+static SHRINK_BUDGET: AtomicUsize = AtomicUsize::new(3000);
+
+/// Limit shrink iterations for checks whose single case is expensive
+pub fn set_shrink_budget(n: usize) {
+    SHRINK_BUDGET.store(n, Ordering::Relaxed);
+}
+
 pub fn in_shrink() -> bool {
     IN_SHRINK.with(|c| c.get())
 }
@@ -757,7 +764,7 @@ where
                             if tree.simplify() {
                                 loop {
                                     iters += 1;
-                                    if iters > 3000 {
+                                    if iters > SHRINK_BUDGET.load(Ordering::Relaxed) {
                                         break;
                                     }
                                     let v = tree.current();
